@@ -209,11 +209,25 @@ def diff_obs(a, b, ignore=("nonfinite", "trace"), only=None):
     for c in sorted(set(a) | set(b)):
         la = {k: v for k, v in a.get(c, []) if k.split(".", 1)[1] not in ignore and (only is None or k.split(".", 1)[1] in only)}
         lb = {k: v for k, v in b.get(c, []) if k.split(".", 1)[1] not in ignore and (only is None or k.split(".", 1)[1] in only)}
+        # a model error (checked division by zero / index error in the Gallina model) ends the comparison of that case:
+        # for DivZero the implementation must have flagged a non-finite arithmetic result in the same call
+        merr = [k for k in lb if k.endswith(".model_error")]
+        stop_op = None
+        if merr:
+            k0 = sorted(merr, key=lambda s: int(s.split(".")[0]))[0]
+            stop_op = int(k0.split(".")[0])
+            nf = dict(a.get(c, [])).get("%d.nonfinite" % stop_op)
+            if not (lb[k0] == "DivZero" and nf == "1"):
+                out.append((c, k0, "nonfinite=%s" % nf, lb[k0]))
+                continue
         for k in sorted(set(la) | set(lb), key=lambda s: (int(s.split(".")[0]) if s.split(".")[0].isdigit() else 0, s)):
+            if stop_op is not None and int(k.split(".")[0]) >= stop_op: continue
             if la.get(k) != lb.get(k):
                 out.append((c, k, la.get(k), lb.get(k)))
                 break   # first difference per case is enough
     return out
+
+last_stderr = ""
 
 def run_bin(exe, casefile, args=(), timeout=600, env=None):
     """run a driver; stdout only (the library prints warnings on stderr)"""
@@ -222,6 +236,8 @@ def run_bin(exe, casefile, args=(), timeout=600, env=None):
     try:
         p = subprocess.run([exe] + list(args) + ([casefile] if casefile else []), env=e, timeout=timeout, stdout=subprocess.PIPE,
                            stderr=subprocess.PIPE, universal_newlines=True, errors="replace")
+        global last_stderr
+        last_stderr = p.stderr
         if p.returncode != 0:
             return p.returncode, p.stdout + "\n[stderr] " + p.stderr[-800:]
         return 0, p.stdout
